@@ -1,146 +1,3 @@
-(* C17 -- equals distinguishes exactly the sequences that differ musically.
-   Model: Pairing.equals a b ignore_channel ignore_time_signatures ignore_key_signatures ignore_velocity
-   (AbsoluteSequence.equals, fixed code) : result bool.  Helper definitions (Proofs/C17_proofs.v):
-     view a its iks    := interleaved (eq_types its iks) PPQN true (sort_abs a)   -- the list equals() iterates over
-     proj ich ivel e   := (channel unless ich, type, tick, pitch, duration, velocity unless ivel, numerator,
-                           denominator, key) of an interleaved entry, attributes irrelevant for the type zeroed
-     differ ich ivel x y : bool := the two entries differ in tick / type / channel (unless ignored) / pitch / duration /
-                           velocity (unless ignored) / signature value
-     key_determines (fun m => m) a := no two different messages of a share (time, channel, type, pitch)
-                           (Proofs/C15_proofs.v) *)
-From Coq Require Import ZArith List Bool.
-From Model Require Import Base Seq Pairing.
-From Coq Require Import Permutation.
-From Proofs Require Import C17_proofs C15_proofs C17_perm.
-Import ListNotations.
-Open Scope Z_scope.
-
-(* clause "reflexive", "holds between a sequence and its copy" (a copy has the same message list): equals a a is True
-   whenever the interleaving does not raise ... *)
-Theorem C17_refl : forall (a : list msg) (ich its iks ivel : bool) ia,
-  view a its iks = Ok ia -> equals a a ich its iks ivel = Ok true.
-Proof. exact C17_proofs.C17_refl. Qed.
-Print Assumptions C17_refl.
-
-(* ... and otherwise it raises IndexError (channels exist but no pairing at all, e.g. only an orphan note-off) *)
-Theorem C17_refl_total : forall (a : list msg) (ich its iks ivel : bool),
-  equals a a ich its iks ivel = match view a its iks with Ok _ => Ok true | Err _ => Err IndexErr end.
-Proof. exact C17_proofs.C17_refl_total. Qed.
-Print Assumptions C17_refl_total.
-
-(* clause "symmetric": same boolean, and same exception when one side raises *)
-Theorem C17_sym : forall (a b : list msg) (ich its iks ivel : bool),
-  equals a b ich its iks ivel = equals b a ich its iks ivel.
-Proof. exact C17_proofs.C17_sym. Qed.
-Print Assumptions C17_sym.
-
-(* clause "each ignore flag relaxes only ...": ignore_channel / ignore_velocity can only turn False into True, and
-   never change whether the call raises *)
-Theorem C17_flags_monotone_channel : forall (a b : list msg) (its iks ivel : bool),
-  equals a b false its iks ivel = Ok true -> equals a b true its iks ivel = Ok true.
-Proof. exact C17_proofs.C17_flags_monotone_channel. Qed.
-Print Assumptions C17_flags_monotone_channel.
-
-Theorem C17_flags_monotone_velocity : forall (a b : list msg) (ich its iks : bool),
-  equals a b ich its iks false = Ok true -> equals a b ich its iks true = Ok true.
-Proof. exact C17_proofs.C17_flags_monotone_velocity. Qed.
-Print Assumptions C17_flags_monotone_velocity.
-
-Theorem C17_flags_err : forall (a b : list msg) (ich ivel ich' ivel' its iks : bool) e,
-  equals a b ich its iks ivel = Err e <-> equals a b ich' its iks ivel' = Err e.
-Proof. exact C17_proofs.C17_flags_err. Qed.
-Print Assumptions C17_flags_err.
-
-(* REFUTED for ignore_time_signatures: switching it on can turn True into IndexError (a time signature plus an
-   orphan note-off) and, together with ignore_channel, True into False (the channel holding the time signature
-   decides the tie-break between simultaneous notes of two channels) *)
-Theorem C17_flags_monotone_signature_refuted :
-  (exists a, equals a a false false false false = Ok true /\ equals a a false true false false = Err IndexErr) /\
-  (exists a b, equals a b true false false false = Ok true /\ equals a b true true false false = Ok false).
-Proof.
-  split.
-  - exists C17_proofs.ex_ts_orphan. exact C17_proofs.C17_its_error_witness.
-  - exists C17_proofs.ex_tie_a, C17_proofs.ex_tie_b. exact C17_proofs.C17_its_false_witness.
-Qed.
-Print Assumptions C17_flags_monotone_signature_refuted.
-
-(* which attributes are compared: one comparison is exactly equality of the projections ... *)
-Theorem C17_pair_equal_spec : forall (ich ivel : bool) (x y : Z * pairing),
-  pair_equal ich ivel x y = true <-> proj ich ivel x = proj ich ivel y.
-Proof. exact C17_proofs.pair_equal_spec. Qed.
-Print Assumptions C17_pair_equal_spec.
-
-(* ... and equals is exactly equality of the projected interleaved lists (both for True and for False) *)
-Theorem C17_characterise : forall (a b : list msg) (ich its iks ivel : bool),
-  equals a b ich its iks ivel = Ok true <->
-  exists ia ib, view a its iks = Ok ia /\ view b its iks = Ok ib /\
-                map (proj ich ivel) ia = map (proj ich ivel) ib.
-Proof. exact C17_proofs.C17_characterise. Qed.
-Print Assumptions C17_characterise.
-
-Theorem C17_characterise_false : forall (a b : list msg) (ich its iks ivel : bool),
-  equals a b ich its iks ivel = Ok false <->
-  exists ia ib, view a its iks = Ok ia /\ view b its iks = Ok ib /\
-                map (proj ich ivel) ia <> map (proj ich ivel) ib.
-Proof. exact C17_proofs.C17_characterise_false. Qed.
-Print Assumptions C17_characterise_false.
-
-(* clause "fails whenever some note's pitch, onset, duration, channel or velocity, or some time or key signature or
-   its tick, differs" -- PARTIAL: stated on the interleaved pairing lists (entry i of one side differs from entry i of
-   the other side in a compared attribute, or the lists have different lengths).  Missing: the step from "the two
-   message lists differ in one attribute of one note" to "their interleaved lists differ at some position", which
-   needs a theory of pairings_sorted / interleave. *)
-Theorem C17_sensitive_partial : forall (a b : list msg) (ich its iks ivel : bool) ia ib i x y,
-  view a its iks = Ok ia -> view b its iks = Ok ib ->
-  nth_error ia i = Some x -> nth_error ib i = Some y ->
-  differ ich ivel x y = true ->
-  equals a b ich its iks ivel = Ok false.
-Proof. exact C17_proofs.C17_sensitive. Qed.
-Print Assumptions C17_sensitive_partial.
-
-Theorem C17_sensitive_length_partial : forall (a b : list msg) (ich its iks ivel : bool) ia ib,
-  view a its iks = Ok ia -> view b its iks = Ok ib -> length ia <> length ib ->
-  equals a b ich its iks ivel = Ok false.
-Proof. exact C17_proofs.C17_sensitive_length. Qed.
-Print Assumptions C17_sensitive_length_partial.
-
-(* differ is exactly the negation of one comparison: nothing else is looked at *)
-Theorem C17_differ_spec : forall (ich ivel : bool) (x y : Z * pairing),
-  differ ich ivel x y = negb (pair_equal ich ivel x y).
-Proof. exact C17_proofs.differ_spec. Qed.
-Print Assumptions C17_differ_spec.
-
-(* clause "in any insertion order": equals sorts first, and sorting is idempotent, so the stored order of either
-   argument is irrelevant as long as the sorted lists agree *)
-Theorem C17_sort_idempotent : forall l : list msg, sort_abs (sort_abs l) = sort_abs l.
-Proof. exact C17_proofs.sort_abs_idem. Qed.
-Print Assumptions C17_sort_idempotent.
-
-Theorem C17_sort_invariant : forall (a b : list msg) (ich its iks ivel : bool),
-  equals (sort_abs a) b ich its iks ivel = equals a b ich its iks ivel /\
-  equals a (sort_abs b) ich its iks ivel = equals a b ich its iks ivel.
-Proof. intros. split; [apply C17_proofs.C17_sort_invariant|apply C17_proofs.C17_sort_invariant_r]. Qed.
-Print Assumptions C17_sort_invariant.
-
-Theorem C17_same_sorted : forall (a a' b : list msg) (ich its iks ivel : bool),
-  sort_abs a = sort_abs a' -> equals a b ich its iks ivel = equals a' b ich its iks ivel.
-Proof. exact C17_proofs.C17_same_sorted. Qed.
-Print Assumptions C17_same_sorted.
-
-(* any re-ordering of the stored messages, provided no two DIFFERENT messages share the sort key
-   (time, channel, type, pitch): then sorting gives the same list whatever the insertion order *)
-Theorem C17_perm_invariant : forall (a a' b : list msg) (ich its iks ivel : bool),
-  Permutation a a' -> key_determines (fun m => m) a = true ->
-  equals a b ich its iks ivel = equals a' b ich its iks ivel.
-Proof. exact C17_perm.C17_perm_invariant. Qed.
-Print Assumptions C17_perm_invariant.
-
-(* REFUTED without that hypothesis: two note-ons with the same tick, channel and pitch and different velocities are
-   kept in insertion order by the stable sort, and the comparison sees the velocities in a different order *)
-Theorem C17_insertion_order_refuted : exists a a' : list msg,
-  Permutation a a' /\ equals a a false false false false = Ok true /\ equals a' a false false false false = Ok false.
-Proof. exists C17_perm.ex_dup, C17_perm.ex_dup'. exact C17_perm.C17_insertion_order_witness. Qed.
-Print Assumptions C17_insertion_order_refuted.
 
 (* ================================================================ message-level sensitivity (Proofs/C17_roll.v)
    Vocabulary (all computable, defined in Proofs/C17_roll.v, C05_wf.v):
